@@ -27,7 +27,7 @@ def generate(tier, seed):
                           "cost": 120 if name in sources.PROTEINS else 5})
     n = 450 if tier == "quick" else 25000
     for k in range(n):
-        cases.append({"kind": "built", "mode": ("subset", "subset", "all", "single", "ghost")[k % 5],
+        cases.append({"kind": "built", "mode": ("subset", "subset", "all", "single", "ghost", "ghost-only")[k % 6],
                       "seed": "%d:b:%d" % (seed, k), "cost": 16})
     return cases
 
@@ -73,6 +73,21 @@ def run_case(case, tier):
     res = all_residues(recs)
     mode = case["mode"]
     cen0 = None
+    if mode == "ghost-only":
+        # a list that names only residues which do not exist: nothing is to be titrated
+        ghosts_only = [g for g in (("Q", 5, " "), (res[0][0], 9990, " "), (res[0][0], res[0][1], "Z" if res[0][2] != "Z" else "Y")) if g not in res]
+        text = pdbio.dump(recs)
+        only = obs.run_single(text, ["-i", ",".join(util.res_arg(r) for r in ghosts_only)])
+        counts["pipeline_runs"] = 1
+        counts["ghost_only_runs"] = 1
+        if not only.exc:
+            for cname, conf in only.rec["confs"].items():
+                for g in conf["groups"]:
+                    if g["titratable"] or g["use"]:
+                        viol.append({"cls": "list-of-nonexistent-residues-titrates", "msg": "%s: %s is titratable/reported although the list names only residues that do not exist" % (cname, g["label"])})
+                        break
+        classes.append("mode:ghost-only")
+        return util.finish(case, viol, counts, classes, True, desc)
     if mode == "all":
         L = list(res)
     elif mode == "single":
